@@ -64,6 +64,9 @@ P2E = {
         "dups": [{"c": "b", "i": 1}, {"c": "b", "i": 1}, {"i": 0}, {"c": "c"}, {"c": "b", "i": 1}, {"c": "c"}],
         "full": [{"c": "c", "i": 1}, {"c": "a", "i": 1}, {"c": "b", "i": 0}, {"c": "c", "i": 0}, {"c": "a", "i": 0},
                  {"c": "b", "i": 1}],
+        # legal members given in another numeric type (an int hyperparameter read back from JSON / a data frame as float):
+        # the documented cast applies, and the cast value is what must be excluded later on
+        "castable": [{"c": "b", "i": 1.0}, {"i": 0.0}, {"c": "b", "i": 1}],
     },
     "fin9": {
         "none": None, "empty": [],
@@ -74,6 +77,7 @@ P2E = {
     "fin4": {
         "none": None, "empty": [], "partial": [{"ci": 1}], "dups": [{"ci": 1, "fi": 4}, {"ci": 1, "fi": 4}, {"fi": 0}],
         "full": [{"ci": 1, "fi": 4}, {"ci": 3, "fi": 4}, {"ci": 3, "fi": 0}, {"ci": 1, "fi": 0}],
+        "castable": [{"ci": 1, "fi": 4.0}, {"fi": 0.0, "ci": 3}],
     },
     "degen": {"none": None, "empty": [], "dups": [{}, {"r": 3}, {"c1": "x", "u": 0.5}]},
     "inf": {
@@ -84,7 +88,7 @@ P2E = {
     "mix": {"none": None, "partial": [{"lu": 0.5}, {"lf": 8, "oe": "l"}, {"fi": 0}], "empty": []},
     "finlog": {"none": None, "empty": [], "partial": [{"lo": 64}, {"li": 2, "lf": 8.0}]},
     "quant": {"none": None, "empty": [], "partial": [{"qu": 0.25}, {"qi": 8, "qli": 4}]},
-    "fin200": {"none": None, "partial": [{"a": 3}, {"c": "y", "b": 0}, {"a": 3}]},
+    "fin200": {"none": None, "partial": [{"a": 3}, {"c": "y", "b": 0}, {"a": 3}], "castable": [{"a": 3.0, "b": 7.0}, {"b": 0.0}]},
     "gridf": {"none": None, "empty": [], "ongrid": [{"u": 0.5, "lu": 0.1 ** 1.5, "i": 3}, {"u": 2.5}],
               "partial": [{"i": 1}, {"u": 0.1}]},
 }
